@@ -349,6 +349,16 @@ def _shutdown(ctx: Ctx, c: Collector) -> None:
                 leaving = [e for e in s.events if e.tries == h.tries and e.idx > h.idx and e.kind in ("raise", "return") and e.iters == h.iters]
                 if leaving:
                     iso = False
+        if iso and tgt.iters:
+            # ... and nothing else ends the loop early either (a `break` after the first failure)
+            import ast as _ast
+            for node in _ast.walk(fi.node):
+                if isinstance(node, (_ast.For, _ast.AsyncFor)) and any(n is tgt.node or n is st.node for n in _ast.walk(node)):
+                    inner_loops = [n for n in _ast.walk(node) if isinstance(n, (_ast.For, _ast.AsyncFor, _ast.While)) and n is not node]
+                    for n in _ast.walk(node):
+                        if isinstance(n, _ast.Break) and not any(n in list(_ast.walk(il)) for il in inner_loops):
+                            iso = False
+                    break
         if not iso:
             pr.append("a failing stop()/finalize() of one simulator ends the loop over the simulators: the remaining ones are never stopped and the event loop stays open")
     if not closes:
